@@ -708,12 +708,18 @@ func (p *Path) binop(op token.Token, x, y Value, xt, yt types.Type, pos token.Po
 			return IntV{T: c.Mul(a, b)}
 		case token.QUO:
 			p.implicit(c.Not(c.Eq(b, c.BV(w, 0))), "divide-by-zero", pos, fn)
+			if q, _, ok := p.divByConst(a, b, w, signed); ok {
+				return IntV{T: q}
+			}
 			if signed {
 				return IntV{T: c.SDiv(a, b)}
 			}
 			return IntV{T: c.UDiv(a, b)}
 		case token.REM:
 			p.implicit(c.Not(c.Eq(b, c.BV(w, 0))), "divide-by-zero", pos, fn)
+			if _, r, ok := p.divByConst(a, b, w, signed); ok {
+				return IntV{T: r}
+			}
 			if signed {
 				return IntV{T: c.SRem(a, b)}
 			}
@@ -786,6 +792,59 @@ func (p *Path) binop(op token.Token, x, y Value, xt, yt types.Type, pos token.Po
 	}
 	p.unsupported(fmt.Sprintf("binop %s on %T", op, x))
 	return nil
+}
+
+// divByConst replaces a symbolic dividend divided by a CONSTANT (not a power of two) by fresh quotient and remainder
+// with their defining constraints a = q*c + r, |r| < |c|, sign(r) = sign(a) or r = 0, q within the range in which q*c
+// cannot wrap: Go's truncated division, exactly. Bit-blasted dividers make the solvers time out on 64-bit words; a
+// multiplication by a constant is a few shifted additions. The pair (q, r) is unique, so nothing is over- or
+// under-constrained; the same dividend/divisor pair reuses its variables.
+func (p *Path) divByConst(a, b *Term, w int, signed bool) (q, r *Term, ok bool) {
+	c := p.ctx
+	if a.IsConst() || !b.IsConst() || w < 16 || p.tolerant > 0 {
+		return nil, nil, false
+	}
+	mask := ^uint64(0)
+	if w < 64 {
+		mask = (uint64(1) << uint(w)) - 1
+	}
+	cv := b.Val & mask
+	var mag uint64 // |c|
+	neg := false
+	if signed && cv>>(uint(w)-1) == 1 {
+		neg = true
+		mag = (^cv + 1) & mask
+	} else {
+		mag = cv
+	}
+	if mag < 3 || mag&(mag-1) == 0 {
+		return nil, nil, false
+	}
+	key := fmt.Sprintf("div:%p:%d:%d:%v", a, cv, w, signed)
+	if qr, have := p.userData[key].([2]*Term); have {
+		return qr[0], qr[1], true
+	}
+	q = p.fresh("divq", BVSort(w))
+	r = p.fresh("divr", BVSort(w))
+	p.addPC(c.Eq(a, c.Add(c.Mul(q, b), r)))
+	if signed {
+		lim := (uint64(1) << uint(w-1)) / mag
+		p.addPC(c.SLE(c.BV(w, (^lim+1)&mask), q))
+		p.addPC(c.SLE(q, c.BV(w, lim)))
+		zero := c.BV(w, 0)
+		m := c.BV(w, mag)
+		nm := c.BV(w, (^mag+1)&mask)
+		nonneg := c.SLE(zero, a)
+		p.addPC(c.Implies(nonneg, c.And(c.SLE(zero, r), c.SLT(r, m))))
+		p.addPC(c.Implies(c.Not(nonneg), c.And(c.SLT(nm, r), c.SLE(r, zero))))
+		_ = neg
+	} else {
+		lim := mask / mag
+		p.addPC(c.ULE(q, c.BV(w, lim)))
+		p.addPC(c.ULT(r, c.BV(w, mag)))
+	}
+	p.userData[key] = [2]*Term{q, r}
+	return q, r, true
 }
 
 func (p *Path) floatArith(op token.Token, x, y FloatV) Value {
